@@ -17,6 +17,7 @@ const (
 	zzOutThunkValue
 	zzOutThunkError
 	zzOutThunkPanic
+	zzOutThunkThunk // a deferred result that yields another deferred result
 	zzOutTypedNil
 	zzOutBadInt   // leaf Int only: arbitrary int64
 	zzOutNonList  // list fields only
@@ -32,6 +33,8 @@ type zzFault struct {
 	// all: every invocation of parent.field gets the outcome, not only the one at path
 	all           bool
 	parent, field string
+	// alsoA: the root field `a` fails as well (an error recorded before, or next to, the fault)
+	alsoA bool
 }
 
 func (f *zzFault) hits(parent, field, path string) bool {
@@ -63,6 +66,10 @@ func (w *zzWorld) zzApplyFault(f *zzFault, parent string, spec *zzFieldSpec, p R
 		return func() (interface{}, error) { return def, errors.New("boom") }, nil
 	case zzOutThunkPanic:
 		return func() (interface{}, error) { panic("boom") }, nil
+	case zzOutThunkThunk:
+		return func() (interface{}, error) {
+			return func() (interface{}, error) { return def, nil }, nil
+		}, nil
 	case zzOutTypedNil:
 		var np *zzObjVal
 		return np, nil
@@ -161,6 +168,10 @@ func (r *zzRefF) execSelF(runtime string, sets []*ast.SelectionSet, path string)
 }
 
 func (r *zzRefF) fieldF(runtime string, spec *zzFieldSpec, g zzGroup, fpath string) (interface{}, bool) {
+	if r.fault != nil && r.fault.alsoA && runtime == "Query" && spec.name == "a" && !r.fault.hits(runtime, spec.name, fpath) {
+		r.fail(fpath)
+		return nil, false
+	}
 	faulty := r.fault != nil && r.fault.hits(runtime, spec.name, fpath)
 	if faulty {
 		o := r.fault.outcome
@@ -283,6 +294,9 @@ func ZZ_C04_faults() {
 	knownRegion := (out == zzOutThunkError || out == zzOutThunkPanic) && spec.nonNull
 	fault := &zzFault{path: target, outcome: out, parent: parent, field: fname}
 	fault.all = zzChoice("scope", 2) == 1
+	fault.alsoA = zzContains(text, "{ a ") && zzChoice("alsoA", 2) == 1
+	// deferAll: all the other resolvers return deferred results (and lists of deferred elements)
+	deferAll := zzChoice("defer", 2) == 1
 	if out == zzOutBadInt {
 		fault.badInt = zzInt64("badInt")
 	}
@@ -290,6 +304,23 @@ func ZZ_C04_faults() {
 		if fault.hits(parent, field, zzPathString(p.Info.Path)) {
 			v, err := w.zzApplyFault(fault, parent, zzFieldSpecOf(zzTypeSpecOf(parent), field), p)
 			return v, err, true
+		}
+		if fault.alsoA && parent == "Query" && field == "a" {
+			return nil, errors.New("a failed"), true
+		}
+		if deferAll {
+			// every other resolver defers its result; lists are lists of deferred elements
+			spec := zzFieldSpecOf(zzTypeSpecOf(parent), field)
+			def, _ := w.defaultResolve(parent, spec, p)
+			if l, ok := def.([]interface{}); ok && spec.list {
+				out := make([]interface{}, len(l))
+				for i := range l {
+					e := l[i]
+					out[i] = func() (interface{}, error) { return e, nil }
+				}
+				return func() (interface{}, error) { return out, nil }, nil, true
+			}
+			return func() (interface{}, error) { return def, nil }, nil, true
 		}
 		return nil, nil, false
 	}
@@ -303,7 +334,13 @@ func ZZ_C04_faults() {
 		}
 	}
 	want, ok := ref.execSelF("Query", []*ast.SelectionSet{op.SelectionSet}, "")
-	if knownRegion && ok && r.Data == nil && len(r.Errors) == 1 && ref.expects(zzErrPathStr(r.Errors[0].Path)) {
+	allExpected := len(r.Errors) >= 1
+	for _, e := range r.Errors {
+		if !ref.expects(zzErrPathStr(e.Path)) {
+			allExpected = false
+		}
+	}
+	if knownRegion && ok && r.Data == nil && allExpected {
 		zzKnown("KF-C04-thunk-nonnull")
 		zzFail("a deferred failure in a non-null position nulled the whole data instead of the nearest nullable ancestor")
 	}
